@@ -5,6 +5,7 @@ import PhyloModel.Split.Model
 import PhyloModel.Matrix.Store
 import PhyloModel.Matrix.Phylip
 import PhyloModel.Dist.Fold
+import PhyloModel.Dist.RecWalk
 import PhyloModel.Matrix.Upgma
 import PhyloModel.Matrix.UpgmaClamp
 import PhyloModel.Misc.Generators
@@ -363,7 +364,7 @@ def dispatch (st : DState) (fs : List String) : DState × String :=
     match q with
     | ["fast", u] => match u.toInt? with | some u => (st, encQR enc (DMF.dmFast st.ar u)) | none => bad
     | ["rose", u] => match u.toInt? with | some u => (st, encQR enc (DMF.dmRose st.ar u)) | none => bad
-    | ["rec"] => (st, encQR enc (DMF.dmRecursive st.ar))
+    | ["rec"] => (st, encQR enc (DMF.dmRecWalk st.ar))
     | _ => bad
   | ["ph.parse", entry, hx] => match hexDec hx with
     | some text =>
